@@ -11,6 +11,7 @@ observation of (a), (b), (c) directly, and (b) and (c) must agree with each othe
 float/double: lexical recogniser (Spec) + agreement between (b) and (c) only."""
 import json, re
 import common
+from props import c09_facets
 
 PID = "C09"
 GEN = ["Codec"]
@@ -26,6 +27,8 @@ THEOREMS = ["XV.Props.C09." + t for t in (
     "replace_spec", "collapse_spec", "collapse_idempotent", "collapse_after_replace", "boolean_spec",
     "datetime_valid_iff", "normalize_preserves_instant_partial", "compare_spec_partial", "datetime_trans_partial",
     "datetime_orig_fails",
+    "bounds_spec", "inherit_eq_conjunction", "inherit_eq_conjunction_decimal", "restriction_monotone",
+    "length_inherit_eq_conjunction", "list_iff", "union_iff",
 )]
 RULE = ("decimal/integer: every string of length <= 5 over {0,1,9,.,+,-,space,e} (exhaustive), the product "
         "sign x integer-part x fraction x white-space/garbage decoration, boundary numerals of every derived integer "
@@ -37,7 +40,10 @@ RULE = ("decimal/integer: every string of length <= 5 over {0,1,9,.,+,-,space,e}
         "year/month/day/time/fraction/zone around a base value, month-length x leap-year x zone grid, carry-chain grid "
         "(time x zone x month/year boundaries), random combinations, all ordered pairs/triples of an order pool with equal "
         "instants in different zones, 24:00:00 forms and 14-hour boundary pairs; every built-in type above: the same strings "
-        "through validator and XSValue. Non-trivial = not the empty string and not rejected for an illegal first "
+        "through validator and XSValue; facet tier: 200 schema documents per run (restriction chains of depth 1-4 over decimal, "
+        "integer, double, date, dateTime, string, token with one-sided steps, digits, length, enumeration; lists of unions, unions of "
+        "lists; deliberately loosening steps), each value on every bound and one grid step either side, in-parse and through the "
+        "declaration's validator at every level of the chain. Non-trivial = not the empty string and not rejected for an illegal first "
         "character alone; distinct by (operation, text)")
 ASSUMPTIONS = ["strings shorter than 2^31 units (the C++ keeps digit counts in int)",
                "XMLCh strings contain no NUL (C strings)",
@@ -95,6 +101,17 @@ def impl(lines):
     while len(o) < len(lines):
         o.append("NO-OUTPUT")
     return o, err
+
+def impl_single(line):
+    """one case in its own process (ASan aborts the process).  A death without any sanitizer text is not evidence
+    against the code (the machine may be overloaded): retry once, then infrastructure error."""
+    for attempt in (0, 1):
+        o, e = impl([line])
+        if not o[0].startswith("CRASH") and o[0] != "NO-OUTPUT":
+            return o, e
+        if "AddressSanitizer" in e or "runtime error" in e:
+            return o, e
+    raise common.InfraError("harness hx_dt died without a sanitizer report on %r: %s" % (line, o[0]))
 
 class Viol:
     """collects violations, one (the shortest input) per key"""
@@ -503,7 +520,7 @@ def check_codecs(ctx, V):
             continue
         seen.add((c, tuple(s))); nr += 1
         l = "B %s %s" % (c, hx(s))
-        o, e = impl([l])
+        o, e = impl_single(l)
         rp = {"op": "B " + c, "string": hx(s), "text": txt(hx(s))}
         if "AddressSanitizer" in e or "runtime error" in e or o[0].startswith("CRASH"):
             V.add("base64-isdata-index-255", "Base64::decodeToXMLByte(%r): %s" % (txt(hx(s)), common.sanitizer_summary(e)), dict(rp, stderr=e[-800:]))
@@ -511,7 +528,7 @@ def check_codecs(ctx, V):
             V.add("base64-xmlch-narrowing", "Base64::decodeToXMLByte(%r) accepts a string with non-base64 characters (XMLCh narrowed to XMLByte): %s" % (txt(hx(s)), o[0]), rp)
     for s in ([0x130, 0x131], [0x4130, 0x4131], [0xff, 0x30]):
         l = "HD " + hx(s)
-        o, e = impl([l])
+        o, e = impl_single(l)
         rp = {"op": "HD", "string": hx(s), "text": txt(hx(s))}
         if "AddressSanitizer" in e or "runtime error" in e or o[0].startswith("CRASH") or o[0].startswith("dec"):
             V.add("hexbin-decode-unchecked-index", "HexBin::decodeToXMLByte(%r) (called unvalidated by XSValue::getActualValue): %s %s" % (
@@ -683,7 +700,7 @@ def check_dates(ctx, V):
     nr = 0
     for l, (k, x) in risky[:(40 if ctx.thorough() else 6)]:
         nr += 1
-        o, e = impl([l])
+        o, e = impl_single(l)
         rp = {"op": "DT " + k, "string": hx(x), "text": x}
         if "AddressSanitizer" in e or "runtime error" in e or o[0].startswith("CRASH"):
             V.add("datetime-date-canonical-negative-year-overflow", "XMLDateTime(%r).parseDate(); getDateCanonicalRepresentation(): %s" % (x, common.sanitizer_summary(e)), dict(rp, stderr=e[-800:]))
@@ -892,7 +909,7 @@ def check_types(ctx, V):
     risky = [c for c in cases if c[0] == "date" and c[1].startswith("-")]
     cases = [c for c in cases if not (c[0] == "date" and c[1].startswith("-"))]
     for t, s in risky[:(20 if ctx.thorough() else 3)]:
-        o, e = impl(["T %s %s" % (t, hx(s))])
+        o, e = impl_single("T %s %s" % (t, hx(s)))
         if "AddressSanitizer" in e or "runtime error" in e or o[0].startswith("CRASH"):
             V.add("datetime-date-canonical-negative-year-overflow", "DateDatatypeValidator::getCanonicalRepresentation(%r): %s" % (s, common.sanitizer_summary(e)),
                   {"op": "T", "type": t, "string": hx(s), "text": s, "stderr": e[-800:]})
@@ -977,7 +994,7 @@ def datetime_type_cases(ctx):
 def correspondence(ctx):
     V = Viol(ctx)
     total, distinct = 0, set()
-    for fn in (check_numeric, check_order, check_codecs, check_ws, check_dates, check_types):
+    for fn in (check_numeric, check_order, check_codecs, check_ws, check_dates, check_types, c09_facets.check_facets):
         n, d = fn(ctx, V)
         total += n
         distinct |= d
@@ -1012,9 +1029,11 @@ def search(ctx, broken):
 def replay(ctx, path):
     r = json.load(open(path))["replay"]
     op = r.get("op", "")
+    if op == "FS":
+        return c09_facets.replay_facet(r)
     if op == "T":
         l = "T %s %s" % (r["type"], r["string"])
-        o, e = impl([l])
+        o, e = impl_single(l)
         sv = spec_verdicts([(r["type"], "".join(chr(u) for u in unhx(r["string"])))])
         print("case :", l, repr(r.get("text"))); print("impl :", o[0]); print("spec :", sv[0])
         return 0
@@ -1035,7 +1054,7 @@ def replay(ctx, path):
             m = common.run_driver(["dt"], input=(l + "\n").encode()).decode().strip()
         except common.InfraError as e:
             m = "driver: %s" % e
-        o, e = impl([l])
+        o, e = impl_single(l)
         sl = {"D": "SD", "DC": "SD", "I": "SI", "IC": "SI", "H": "SH", "HD": "SH", "B": "SB"}[op.split()[0]]
         print("case :", l, repr(r.get("text"))); print("model:", m); print("impl :", o[0]); print("spec :", spec([sl + " " + r["string"]])[0])
         if e.strip():
